@@ -424,24 +424,34 @@ pub(crate) mod verif_hdr_dec {
     pub static mut R_CONSUMED: usize = 0;
     pub static mut R_CALLS: usize = 0;
     /// header bytes: unconstrained content, unconstrained length; delivers everything available.
+    /// read_exact is served at concrete offsets for the request shapes a header parser makes (4 bytes at 0, then
+    /// 128 or 32 bytes at 4); any other shape sets R_LIMIT (=> inconclusive).
+    pub static mut R_LIMIT: bool = false;
     pub struct HdrReader { pub data: [u8; 140], pub len: usize }
     impl Read for HdrReader {
         fn read(&mut self, buf: &mut [u8]) -> std::io::Result<usize> {
-            unsafe {
-                R_CALLS += 1;
-                let rem = self.len - R_CONSUMED;
-                let k = if rem < buf.len() { rem } else { buf.len() };
-                buf[..k].copy_from_slice(&self.data[R_CONSUMED..R_CONSUMED + k]);
-                R_CONSUMED += k;
-                Ok(k)
-            }
+            unsafe { R_CALLS += 1; R_LIMIT = true; }
+            Ok(0)
         }
         fn read_exact(&mut self, buf: &mut [u8]) -> std::io::Result<()> {
-            let want = buf.len();
-            let k = self.read(buf)?;
-            if k < want { Err(std::io::Error::from(std::io::ErrorKind::UnexpectedEof)) } else { Ok(()) }
+            unsafe {
+                R_CALLS += 1;
+                let want = buf.len();
+                if self.len - R_CONSUMED < want {
+                    R_CONSUMED = self.len;
+                    return Err(std::io::Error::from(std::io::ErrorKind::UnexpectedEof));
+                }
+                if R_CONSUMED == 0 && want == 4 { buf.copy_from_slice(&self.data[0..4]); }
+                else if R_CONSUMED == 4 && want == 128 { buf.copy_from_slice(&self.data[4..132]); }
+                else if R_CONSUMED == 4 && want == 32 { buf.copy_from_slice(&self.data[4..36]); }
+                else { R_LIMIT = true; }
+                R_CONSUMED += want;
+                Ok(())
+            }
         }
     }
+    /// E-CUT: message formatting produces nothing (message content is not the subject here)
+    pub fn fmtwrite_cut(_o: &mut dyn core::fmt::Write, _a: core::fmt::Arguments<'_>) -> core::fmt::Result { Ok(()) }
     pub static mut P_WRITES: usize = 0;
     pub static mut P_FLUSHES: usize = 0;
     pub struct PCount;
@@ -512,6 +522,7 @@ pub(crate) mod verif_hdr_dec {
     #[kani::stub(crate::noise_decrypt, noise_decrypt_rec)]
     #[kani::stub(crate::hkdf_sha256, hkdf_rec)]
     #[kani::stub(crate::decrypt::decrypt_chunks, decrypt_chunks_rec)]
+    #[kani::stub(core::fmt::write, fmtwrite_cut)]
     #[kani::unwind(130)]
     pub fn hdr_key_decrypt() {
         let data: [u8; 140] = kani::any();
@@ -528,6 +539,7 @@ pub(crate) mod verif_hdr_dec {
         let res = key_decrypt(&mut rd, &mut w, &sk, &pk, AsymFileFormat::V1);
         let magic_ok = len >= 4 && data[0] == 0x65 && data[1] == 0x67 && data[2] == 0x6b && data[3] == 0x10;
         unsafe {
+            assert!(!R_LIMIT, "[LIMIT] header read-call structure outside what this harness models");
             if !magic_ok {
                 assert!(res.is_err(), "[C03,C09] a file that does not start with the key-mode magic is rejected");
                 assert!(ND.n == 0 && DC.0 == 0 && P_WRITES == 0 && P_FLUSHES == 0, "[C03,C13] ... before anything is decrypted or written");
@@ -585,6 +597,7 @@ pub(crate) mod verif_hdr_dec {
     #[kani::proof]
     #[kani::stub(crate::scrypt::scrypt, scrypt_rec)]
     #[kani::stub(crate::decrypt::decrypt_chunks, decrypt_chunks_rec)]
+    #[kani::stub(core::fmt::write, fmtwrite_cut)]
     #[kani::unwind(130)]
     pub fn hdr_pass_decrypt() {
         let data: [u8; 140] = kani::any();
@@ -600,6 +613,7 @@ pub(crate) mod verif_hdr_dec {
         let res = pass_decrypt(&mut rd, &mut w, &pwb[..pl], PassFileFormat::V1);
         let magic_ok = len >= 4 && data[0] == 0x65 && data[1] == 0x67 && data[2] == 0x6b && data[3] == 0x20;
         unsafe {
+            assert!(!R_LIMIT, "[LIMIT] header read-call structure outside what this harness models");
             if !magic_ok {
                 assert!(res.is_err(), "[C03,C09] a file that does not start with the password-mode magic is rejected");
                 assert!(SC.0 == 0 && DC.0 == 0 && P_WRITES == 0 && P_FLUSHES == 0 && R_CONSUMED <= 4, "[C03,C09,C13] ... before any key derivation, decryption or write");
